@@ -816,8 +816,21 @@ def _edge_attr_check(emitted):
     return []
 
 
+def _macro_redefined_check(emitted):
+    found = [sorted(m.block_to.nodes[j]['atomname'] for d in m.mapping.values() for j in d) for m in emitted]
+    if found != [['A'], ['B']]:
+        return ['targets of the two mappings %r; declared [[A], [B]]: `a $target` is written after `target A` in the '
+                'first section and after the redefinition `target B` in the second' % found]
+    return []
+
+
+_MACRO_BODY = ['[ block ]', '[ from blocks ]', '!X', '[ to blocks ]', '!Y', '[ from nodes ]', 'a', '[ to nodes ]', 'A', 'B',
+               '[ mapping ]', 'a $target']
+
 # directed cases with a check of the content: (name, lines, check(emitted) -> errors)
 DIRECTED = [
+    ('macro-redefined-identical-lines', ['[ macros ]', 'target A'] + _MACRO_BODY + ['[ macros ]', 'target B'] + _MACRO_BODY,
+     _macro_redefined_check),
     ('nofetch-marker', _B + ['[ from blocks ]', '!X {"resname": "ALA"}', '[ from nodes ]', 'X:N', 'X:CA', '[ to blocks ]', 'ALA',
                              '[ mapping ]', 'X:CA BB'], _nofetch_check),
     ('edge-attributes', _B + _FT + ['[ to edges ]', 'BB SC1 {"order": 2, "kind": "x"}', 'SC1 BB {"kind": "y", "extra": [1]}',
@@ -840,8 +853,9 @@ def run_corpus(chk, ask):
     reqs = [line('mapping', 'read', lib, ls) for _, ls, _ in DIRECTED]
     for (name, ls, check), ln, mo in zip(DIRECTED, reqs, ask(reqs)):
         im, emitted, _keys, exc = run_real(chk, ls, ffs)
-        if emitted is None or len(emitted) != 1:
-            errs = ['directed case %s: one mapping declared, the reader gives %r (%s)' % (name, emitted and len(emitted), exc)]
+        nwant = count_kind_headers(ls)
+        if emitted is None or len(emitted) != nwant:
+            errs = ['directed case %s: %d mappings declared, the reader gives %r (%s)' % (name, nwant, emitted and len(emitted), exc)]
         else:
             errs = check(emitted)
         chk.count('mapfile_directed')
